@@ -401,7 +401,7 @@ def _byte_array(case, tier):
         if n:
             got = speedups.unpack_byte_array(np.frombuffer(spec, dtype=np.uint8), n, utf=False)
             n_exec += 1
-            if [bytes(x) for x in got.tolist()] != items:
+            if [x if not isinstance(x, (bytes, bytearray, memoryview)) else bytes(x) for x in got.tolist()] != items:
                 raise Fail("unpack_byte_array|value", "unpack_byte_array of %d items (length set %d) differs" % (n, li))
             texts = [("é" * (L // 2) + "x" * (L % 2)) for L in lens]
             spec2 = b"".join(struct.pack("<I", len(t.encode())) + t.encode() for t in texts)
@@ -411,7 +411,7 @@ def _byte_array(case, tier):
                 raise Fail("unpack_byte_array|utf", "unpack_byte_array(utf=True) of %d items differs" % n)
             enc_ = speedups.array_encode_utf8(np.array(texts, dtype=object))
             n_exec += 1
-            if [bytes(x) for x in enc_.tolist()] != [t.encode() for t in texts]:
+            if [x if not isinstance(x, (bytes, bytearray, memoryview)) else bytes(x) for x in enc_.tolist()] != [t.encode() for t in texts]:
                 raise Fail("array_encode_utf8|value", "array_encode_utf8 differs")
             nt.append("%d:%d" % (n, li))
     return n_exec, nt
